@@ -570,6 +570,56 @@ def r01_8(run):
                    message='_broadcast_response takes %s as payload' % src(n))
 
 
+def code_hook(c):
+    """self.code stands for the status code of the reply the current line belongs
+    to; `self.code = int(line[:3])` keeps it, `= None` clears it."""
+    def hook(node, val, trail):
+        cur = c
+        for n, lab in trail:
+            if n.kind == 'stmt' and isinstance(n.ast, ast.Assign):
+                v = assign_to(n.ast, 'self.code')
+                if v is None:
+                    continue
+                if isinstance(v, ast.Call) and dotted(v.func) == 'int':
+                    cur = c
+                elif is_none(v):
+                    cur = None
+                else:
+                    return None
+        r = eval_small(node.ast, {'self.code': cur})
+        return None if r is UNKNOWN else bool(r)
+    return hook
+
+
+
+def r01_9(run):
+    """per-line callback only for lines of a 2xx reply: lines of a 5xx reply belong to the error text."""
+    ci = proto(run)
+    reps = [c for c in code_reps(run) if code_class(c) in ('5xx', 'other') and c is not None and c >= 300]
+    sites = 0
+    for u in class_units(run.idx, ci):
+        cbcalls = [x for x in calls_in(u) if isinstance(x.func, ast.Subscript) and dotted(x.func.value) == 'self.command']
+        if not cbcalls:
+            continue
+        sites += len(cbcalls)
+        g = cfg_of(u)
+        bad = {}
+        for c in reps:
+            for p in g.paths(eval_hook=code_hook(c)):
+                run.paths_enumerated += 1
+                for t, n, a in path_effects(p, acc_classify):
+                    if t == 'linecb':
+                        bad.setdefault(id(a), (a, c, p))
+        for call in cbcalls:
+            hit = bad.get(id(call))
+            run.ob('R01.9', u, call, 'per-line callback unreachable while the current reply is not 2xx', hit is None,
+                   slot='linecb-non2xx@%s' % u.short,
+                   message='%s hands a line of a %s reply to the per-line callback: a 5xx reply then fails with '
+                           'only part of its text' % (u.short, hit[1] if hit else ''),
+                   path=('code=%s %s' % (hit[1], hit[2].describe())) if hit else None)
+    run.floor('R01.9', 'calls of self.command[2](...)', sites, 4)
+
+
 RULES = [
     ('R01.1', 'who-may-call: the control transport is written only in _maybe_issue_command', r01_1),
     ('R01.2', 'def-use: written bytes = queued command (tuple element agreement) + constant CRLF', r01_2),
@@ -577,12 +627,14 @@ RULES = [
     ('R01.4', 'dominance: pop guarded by empty in-flight slot; slot and Deferred set before write; who-may-assign slot', r01_4),
     ('R01.5', 'path enumeration over status-code ordering classes in _broadcast_response: one fire of the right kind, slot cleared, then next issue', r01_5),
     ('R01.7', 'framing: LineOnlyReceiver base, no dataReceived/delimiter override, MAX_LENGTH >= 2**20, each line processed once', r01_7),
+    ('R01.9', 'reachability: per-line callback unreachable under every non-2xx code class', r01_9),
     ('R01.8', 'each reply line goes to exactly one of per-line callback / reply text; prefix slice is 4; data lines unsliced', r01_8),
 ]
 
 from ..selftest import M  # noqa: E402
 F = 'txtorcon/torcontrolprotocol.py'
 MUTANTS = [
+    M('linecb-for-5xx', F, "        return self.code >= 200 and self.code < 300 and \\\n            self.command", "        return self.code < 600 and \\\n            self.command", ['R01.9']),
     M('write-in-queue_command', F, "        self.commands.append((d, cmd, arg))\n", "        self.commands.append((d, cmd, arg))\n        self.transport.write(cmd)\n", ['R01.1']),
     M('lf-terminator', F, "data = cmd + b'\\r\\n'", "data = cmd + b'\\n'", ['R01.2']),
     M('write-stripped', F, "data = cmd + b'\\r\\n'", "data = cmd.strip() + b'\\r\\n'", ['R01.2']),
